@@ -27,6 +27,7 @@ class _Abort(BaseException):
 
 
 class C01(Machine):
+    chunk = 40      # runs per forked process (see runner._child)
     pid = 'C01'
     rule = ("one run = one generated problem (grid 2..10 cells/direction any "
             "parity, stretched; iso/VTI/HTI/triaxial x 6 mappings, optional "
